@@ -922,6 +922,27 @@ func (a PopScopeTransferToDataStackInstr) Execute(env *Zlisp) error {
 	return nil
 }
 
+// TailGuardInstr opens a self tail call: when the name no longer denotes the
+// function that is running, it skips the jump and lands on the ordinary call.
+type TailGuardInstr struct {
+	sym  *SexpSymbol
+	skip int
+}
+
+func (g TailGuardInstr) InstrString() string {
+	return fmt.Sprintf("tail-guard %s %d", g.sym.name, g.skip)
+}
+
+func (g TailGuardInstr) Execute(env *Zlisp) error {
+	funcobj, err, _ := env.LexicalLookupSymbol(g.sym, nil)
+	if f, isFun := funcobj.(*SexpFunction); err == nil && isFun && f == env.curfunc {
+		env.pc++
+		return nil
+	}
+	env.pc += g.skip
+	return nil
+}
+
 type PrepareCallInstr struct {
 	sym   *SexpSymbol
 	nargs int
@@ -940,58 +961,16 @@ func (c PrepareCallInstr) Execute(env *Zlisp) error {
 }
 
 func (c PrepareCallInstr) execute(env *Zlisp) error {
-	_, ok := env.builtins[c.sym.number]
-	if ok {
-		return nil
-	}
-	var funcobj, indirectFuncName Sexp
-	var err error
-
-	funcobj, err, _ = env.LexicalLookupSymbol(c.sym, nil)
-
-	if err != nil {
-		return err
-	}
-	switch f := funcobj.(type) {
-	case *SexpSymbol:
-		if c.sym.isDot {
-
-			dotSymRef, dotLookupErr := dotGetSetHelper(env, c.sym.name, nil)
-			if dotLookupErr != nil {
-				return dotLookupErr
-			}
-			indirectFuncName = dotSymRef
-		} else {
-			indirectFuncName, err = dotGetSetHelper(env, f.name, nil)
-			if err != nil {
-				return fmt.Errorf("'%s' refers to symbol '%s', but '%s' could not be resolved: '%s'.",
-					c.sym.name, f.name, f.name, err)
-			}
+	// the callee is the function that is running: the guard established that
+	// before the arguments were evaluated, whatever they did to the name.
+	f := env.curfunc
+	if !f.user {
+		nargs := c.nargs
+		if err := env.prepareLazyCallArgs(f, &nargs); err != nil {
+			return err
 		}
-
-		switch g := indirectFuncName.(type) {
-		case *SexpFunction:
-			if !g.user {
-				nargs := c.nargs
-				if err := env.prepareLazyCallArgs(g, &nargs); err != nil {
-					return err
-				}
-				if g.varargs {
-					return env.wrangleOptargs(g.nargs, nargs)
-				}
-			}
-			return nil
-		}
-
-	case *SexpFunction:
-		if !f.user {
-			nargs := c.nargs
-			if err := env.prepareLazyCallArgs(f, &nargs); err != nil {
-				return err
-			}
-			if f.varargs {
-				return env.wrangleOptargs(f.nargs, nargs)
-			}
+		if f.varargs {
+			return env.wrangleOptargs(f.nargs, nargs)
 		}
 	}
 	return nil
